@@ -380,9 +380,9 @@ theorem sAddDom_dom : (Spec.addDom s k).dom = if k ∈ s.dom then s.dom else s.d
 end specfields
 
 /-- a write through the autocommit caller -/
-theorem write_main_R {c : Sys} {s : State} (h : R c s) (k : Key) (val : Option Nat)
+theorem write_main_R {c : Sys} {s : State} {cl : List Nat} (h : Rx cl c s) (k : Key) (val : Option Nat)
     (extra : List (Nat × Nat)) (hx : ExtraOk c val extra) :
-    (Spec.write s mainTx k val).2 = .ok ∧ R (afterStore c extra mainTx k val) (Spec.write s mainTx k val).1 := by
+    (Spec.write s mainTx k val).2 = .ok ∧ Rx cl (afterStore c extra mainTx k val) (Spec.write s mainTx k val).1 := by
   have i' := afterStore_inv h.inv extra mainTx k val (Or.inl rfl) hx
   simp only [Spec.write, if_true]
   refine ⟨by first | rfl | trivial, i', ?_, ?_, ?_, ?_, ?_, ?_⟩
@@ -432,10 +432,10 @@ theorem write_main_R {c : Sys} {s : State} (h : R c s) (k : Key) (val : Option N
     · simp only [hk, if_false] at hne; exact Or.inl (h.histDom k' hne)
 
 /-- a write through an open transaction -/
-theorem write_tx_R {c : Sys} {s : State} (h : R c s) (t : Nat) (k : Key) (val : Option Nat)
+theorem write_tx_R {c : Sys} {s : State} {cl : List Nat} (h : Rx cl c s) (t : Nat) (k : Key) (val : Option Nat)
     (extra : List (Nat × Nat)) (hx : ExtraOk c val extra) (ht : t ≠ mainTx)
     (x : STx) (hxo : x ∈ s.open_) (hxid : x.id = t) :
-    (Spec.write s t k val).2 = .ok ∧ R (afterStore c extra t k val) (Spec.write s t k val).1 := by
+    (Spec.write s t k val).2 = .ok ∧ Rx cl (afterStore c extra t k val) (Spec.write s t k val).1 := by
   have hreg : ∃ r ∈ c.reg, r.id = t := ⟨_, h.mem_open hxo, hxid⟩
   have i' := afterStore_inv h.inv extra t k val (Or.inr hreg) hx
   have hfind : ∃ y, find s t = some y := by
@@ -483,12 +483,12 @@ theorem write_tx_R {c : Sys} {s : State} (h : R c s) (t : Nat) (k : Key) (val : 
     rw [after_dom_mem]
     exact Or.inl (h.histDom k' hne)
 
-theorem regGet_isNone_iff {c : Sys} {s : State} (h : R c s) (t : Nat) :
+theorem regGet_isNone_iff {c : Sys} {s : State} {cl : List Nat} (h : Rx cl c s) (t : Nat) :
     (c.regGet t).isNone = (ctxOf s t).isNone := by
   rcases ctx_cases h t with ⟨h1, h2⟩ | ⟨_, h1, h2⟩ | ⟨_, tx, x, h1, _, _, _, _, h2⟩ <;> simp [h1, h2]
 
-theorem step_set {c : Sys} {s : State} (h : R c s) (t : Nat) (k : Key) (n : Nat) :
-    (c.set t k n).2 = (Spec.set s t k n).2 ∧ R (c.set t k n).1 (Spec.set s t k n).1 := by
+theorem step_set {c : Sys} {s : State} {cl : List Nat} (h : Rx cl c s) (t : Nat) (k : Key) (n : Nat) :
+    (c.set t k n).2 = (Spec.set s t k n).2 ∧ Rx cl (c.set t k n).1 (Spec.set s t k n).1 := by
   unfold Sys.set Spec.set
   rw [regGet_isNone_iff h t]
   by_cases h0 : (ctxOf s t).isNone = true
@@ -506,8 +506,8 @@ theorem step_set {c : Sys} {s : State} (h : R c s) (t : Nat) (k : Key) (n : Nat)
       · have := write_tx_R h t k (some n) _ hx htm x hxo hxid
         exact ⟨this.1.symm, this.2⟩
 
-theorem step_del {c : Sys} {s : State} (h : R c s) (t : Nat) (k : Key) :
-    (c.del t k).2 = (Spec.write s t k none).2 ∧ R (c.del t k).1 (Spec.write s t k none).1 := by
+theorem step_del {c : Sys} {s : State} {cl : List Nat} (h : Rx cl c s) (t : Nat) (k : Key) :
+    (c.del t k).2 = (Spec.write s t k none).2 ∧ Rx cl (c.del t k).1 (Spec.write s t k none).1 := by
   unfold Sys.del
   have hx : ExtraOk c none [] := Or.inl ⟨rfl, rfl⟩
   have hpre : ({ c with nextCid := c.nextCid + 1 } : Sys).coreStore t k c.nextCid none = afterStore c [] t k none := by
